@@ -18,12 +18,15 @@ static TrackedModule& tracked_module(uint64_t n, MODULE_TYPE t, unsigned mask) {
   static std::map<std::tuple<uint64_t, int, unsigned>, TrackedModule> cache;
   auto key = std::make_tuple(n, (int)t, mask);
   auto it = cache.find(key);
-  if (it != cache.end()) return it->second;
-  spq::MaskGuard g(mask);
-  at::begin();
-  MODULE* m = new_module_info(n, t);
-  TrackedModule tm{m, at::end()};
-  return cache.emplace(key, tm).first->second;
+  if (it == cache.end()) {
+    spq::MaskGuard g(mask);
+    at::begin();
+    MODULE* m = new_module_info(n, t);
+    TrackedModule tm{m, at::end()};
+    it = cache.emplace(key, tm).first;
+  }
+  spq::maybe_bystander();  // another object of a different dimension / type comes to life (or dies) next to the watched module
+  return it->second;
 }
 
 struct Snap {
